@@ -15,7 +15,7 @@ vars == <<pc, should, commIssue, devUnsafe, n, obs, bad, plan>>
 Emit(e) == LET o2 == Observe(obs, e) IN
            /\ obs' = o2 /\ bad' = IF bad # "" THEN bad ELSE FirstFailM(Clauses(obs, o2, e, V1))
 E0(k) == [k |-> k, should |-> FALSE, cause |-> "client", connected |-> TRUE, onereply |-> TRUE,
-          hascode |-> TRUE, code |-> 0, stopreq |-> FALSE]
+          hascode |-> TRUE, code |-> 0, stopreq |-> FALSE, unsafe |-> FALSE]
 
 Init == /\ pc = "new" /\ should \in BOOLEAN /\ commIssue = FALSE /\ devUnsafe = FALSE /\ n = 0
         /\ obs = InitObs /\ bad = "" /\ plan = <<>>
@@ -35,8 +35,11 @@ Request ==
          /\ plan' = Append(plan, c)
          /\ IF commIssue /\ devUnsafe
             THEN \* repair bring-up finds the device unsafe: HSM2ProtocolInterrupt -> '{}' and shutdown
-                 /\ Emit([E0("conn") EXCEPT !.cause = "unsafe", !.hascode = FALSE, !.stopreq = TRUE])
-                 /\ pc' = "stopping" /\ UNCHANGED <<commIssue, devUnsafe>>
+                 \/ /\ Emit([E0("conn") EXCEPT !.cause = "unsafe", !.hascode = FALSE, !.stopreq = TRUE, !.unsafe = TRUE])
+                    /\ pc' = "stopping" /\ UNCHANGED <<commIssue, devUnsafe>>
+                 \* ... or is cut short by a time-out before it got that far: device error, the repair stays owed
+                 \/ /\ Emit([E0("conn") EXCEPT !.cause = "timeout", !.code = DeviceError(V1), !.unsafe = TRUE])
+                    /\ UNCHANGED <<pc, commIssue, devUnsafe>>
             ELSE CASE c = "client" -> /\ Emit([E0("conn") EXCEPT !.cause = c, !.code = -901])
                                       /\ commIssue' = FALSE /\ UNCHANGED <<pc, devUnsafe>>
                    [] c = "inrange" -> /\ Emit([E0("conn") EXCEPT !.cause = c, !.code = DeviceError(V1)])
